@@ -12,15 +12,17 @@ namespace Aggkit.ReorgSync
 
 def SysInv (s : Sys) : Prop := SubInv s.chain s.fin s.a ∧ SubInv s.chain s.fin s.b
 
-/-- admissible operations: finalized blocks exist and are never replaced; finality only moves forward -/
+/-- admissible operations: finalized blocks exist and are never replaced; finality only moves forward; block hashes do
+    not repeat -/
 def OpOK (s : Sys) : Op → Prop
+  | .blk v => v = 0 ∨ s.maxV < v          -- a block without events, or one whose hash (version) never occurred before
   | .reorg k => s.fin < k
   | .fin f => s.fin ≤ f ∧ f ≤ s.chain.length
   | _ => True
 
 theorem subInv_chain (chain chain' : List Nat) (fin fin' : Nat) (s : Sub) (hi : SubInv chain fin s)
     (h : ∀ b : Blk, Canon chain b → b.1 ≤ fin → Canon chain' b ∧ b.1 ≤ fin') : SubInv chain' fin' s := by
-  refine ⟨?_, hi.trackedStored, hi.contiguous, hi.sortedT⟩
+  refine ⟨?_, hi.trackedStored, hi.sortedS, hi.pos, hi.sortedT⟩
   intro b hb
   rcases hi.covered b hb with h1 | h1
   · exact Or.inl h1
@@ -84,7 +86,7 @@ theorem run_inv : ∀ (ops : List Op) (s : Sys), SysInv s → OpsOK s ops → Sy
     exact ih _ (step_inv s hi op hok.1) hok.2
 
 theorem init_inv : SysInv {} := by
-  constructor <;> exact ⟨fun b hb => by simp at hb, fun b hb => by simp at hb, by simp, by simp⟩
+  constructor <;> exact ⟨fun b hb => by simp at hb, fun b hb => by simp at hb, by simp, fun b hb => by simp at hb, by simp⟩
 
 /-- a state some admissible history leads to -/
 def Reachable (s : Sys) : Prop := ∃ ops, OpsOK {} ops ∧ s = run {} ops
@@ -130,6 +132,221 @@ theorem C06_stopped_during_reorg (s : Sys) (h : Reachable s) :
   · exact (storeCrash s.chain s.fin s.a.tracked s.a)
   · exact (storeCrash s.chain s.fin s.b.tracked s.b)
 
+/-! ### what the store holds besides: only blocks with events, with hashes that occurred; no gap below a clean prefix -/
+
+/-- second invariant (on top of `SubInv`): the store holds only blocks with events, whose versions have been handed out;
+    and **no gap**: if a stored block and every stored block below it are still on the chain, then every block with events
+    that the chain has below it is in the store too (the downloader skipped nothing it should have delivered) -/
+structure SubInv2 (chain : List Nat) (maxV : Nat) (s : Sub) : Prop where
+  nz : ∀ b ∈ s.store, b.2 ≠ 0
+  le : ∀ b ∈ s.store, b.2 ≤ maxV
+  gap : ∀ b ∈ s.store, (∀ x ∈ s.store, x.1 ≤ b.1 → Canon chain x) →
+    ∀ n v, n < b.1 → canon chain n = some v → v ≠ 0 → (n, v) ∈ s.store
+
+def SysInv2 (s : Sys) : Prop :=
+  (∀ v ∈ s.chain, v ≤ s.maxV) ∧ SubInv2 s.chain s.maxV s.a ∧ SubInv2 s.chain s.maxV s.b
+
+theorem canon_mem (chain : List Nat) (n v : Nat) (h : canon chain n = some v) : v ∈ chain := by
+  unfold canon at h
+  by_cases h0 : n = 0
+  · simp [h0] at h
+  · simp only [h0, if_false] at h
+    exact List.mem_of_getElem? h
+
+theorem canon_append_cases (chain : List Nat) (v n w : Nat) (h : canon (chain ++ [v]) n = some w) :
+    (n ≤ chain.length ∧ canon chain n = some w) ∨ (n = chain.length + 1 ∧ w = v) := by
+  have hle := (canon_some_le _ _ _ h).2
+  simp only [List.length_append, List.length_cons, List.length_nil] at hle
+  by_cases hn : n ≤ chain.length
+  · left; exact ⟨hn, by rw [← canon_append chain v n hn]; exact h⟩
+  · right
+    have e : n = chain.length + 1 := by omega
+    refine ⟨e, ?_⟩
+    subst e
+    unfold canon at h
+    simp at h
+    exact h.symm
+
+theorem canon_take_some (chain : List Nat) (k n w : Nat) (h : canon (chain.take (k - 1)) n = some w) :
+    n < k ∧ canon chain n = some w := by
+  have hle := canon_some_le _ _ _ h
+  simp only [List.length_take] at hle
+  have hk : n < k := by omega
+  exact ⟨hk, by rw [← canon_take chain k n hk]; exact h⟩
+
+theorem lastNum_concat (l : List Blk) (b : Blk) : lastNum (l ++ [b]) = b.1 := by
+  unfold lastNum; simp
+
+theorem lastNum_mem (l : List Blk) (h : lastNum l ≠ 0) : ∃ b ∈ l, b.1 = lastNum l := by
+  unfold lastNum at h ⊢
+  cases hg : l.getLast? with
+  | none => rw [hg] at h; simp at h
+  | some b => exact ⟨b, List.mem_of_getLast? hg, rfl⟩
+
+/-- with every stored block on the chain, everything with events that the chain has up to the last stored block is stored -/
+theorem complete_below (chain : List Nat) (fin maxV : Nat) (s : Sub) (hi : SubInv chain fin s) (h2 : SubInv2 chain maxV s)
+    (hall : ∀ b ∈ s.store, Canon chain b) (n v : Nat) (hn : n ≤ lastNum s.store) (hc : canon chain n = some v)
+    (hv : v ≠ 0) : (n, v) ∈ s.store := by
+  have hn1 := (canon_some_le _ _ _ hc).1
+  obtain ⟨lb, hlb, hl⟩ := lastNum_mem s.store (by omega)
+  by_cases he : n = lastNum s.store
+  · have := hall lb hlb
+    unfold Canon at this
+    rw [hl, ← he, hc] at this
+    have e : lb = (n, v) := by
+      cases lb with
+      | mk a b => simp only at hl this ⊢; simp at this; rw [hl, ← he, this]
+    rw [← e]; exact hlb
+  · exact h2.gap lb hlb (fun x hx _ => hall x hx) n v (by omega) hc hv
+
+theorem stepOnce_inv2 (chain : List Nat) (fin maxV : Nat) (s s' : Sub) (hi : SubInv chain fin s)
+    (h2 : SubInv2 chain maxV s) (hcl : ∀ v ∈ chain, v ≤ maxV) (h : stepOnce chain fin s = some s') :
+    SubInv2 chain maxV s' := by
+  unfold stepOnce at h
+  cases hc : nextDeliv chain (lastNum s.store + 1) with
+  | none => rw [hc] at h; cases h
+  | some b =>
+    rw [hc] at h
+    simp only [Option.some.injEq] at h
+    subst h
+    obtain ⟨hge, hcan, hnz, hskip⟩ := nextDeliv_some chain _ b (by omega) hc
+    have hlt : ∀ x ∈ s.store, x.1 < b.1 := fun x hx => by
+      have := le_lastNum_of_sorted s.store hi.sortedS x hx; omega
+    refine ⟨?_, ?_, ?_⟩
+    · intro x hx
+      rcases List.mem_append.mp hx with hx | hx
+      · exact h2.nz x hx
+      · rw [List.mem_singleton.mp hx]; exact hnz
+    · intro x hx
+      rcases List.mem_append.mp hx with hx | hx
+      · exact h2.le x hx
+      · rw [List.mem_singleton.mp hx]; exact hcl _ (canon_mem _ _ _ hcan)
+    · intro x hx hbelow n v hn hcn hv
+      simp only at hx hbelow ⊢
+      rcases List.mem_append.mp hx with hx | hx
+      · exact List.mem_append_left _
+          (h2.gap x hx (fun y hy hle => hbelow y (List.mem_append_left _ hy) hle) n v hn hcn hv)
+      · rw [List.mem_singleton.mp hx] at hn
+        have hall : ∀ y ∈ s.store, Canon chain y := fun y hy =>
+          hbelow y (List.mem_append_left _ hy) (by rw [List.mem_singleton.mp hx]; exact Nat.le_of_lt (hlt y hy))
+        by_cases hnl : n ≤ lastNum s.store
+        · exact List.mem_append_left _ (complete_below chain fin maxV s hi h2 hall n v hnl hcn hv)
+        · have := hskip n (by omega) hn
+          rw [hcn] at this
+          exact absurd (by simpa using this) hv
+
+theorem stepN_inv2 (chain : List Nat) (fin maxV : Nat) (hcl : ∀ v ∈ chain, v ≤ maxV) : ∀ (k : Nat) (s : Sub),
+    SubInv chain fin s → SubInv2 chain maxV s → SubInv2 chain maxV (stepN chain fin k s) := by
+  intro k
+  induction k with
+  | zero => intro s _ h2; exact h2
+  | succ k ih =>
+    intro s hi h2
+    unfold stepN
+    cases h : stepOnce chain fin s with
+    | none => exact h2
+    | some s' => exact ih s' (stepOnce_inv chain fin s s' hi h) (stepOnce_inv2 chain fin maxV s s' hi h2 hcl h)
+
+/-- a detection pass leaves the store alone or cuts it at a block number -/
+theorem detectLoop_store (chain : List Nat) (fin : Nat) : ∀ (ts : List Blk) (s : Sub),
+    (detectLoop chain fin ts s).1.store = s.store ∨
+    ∃ m, (detectLoop chain fin ts s).1.store = s.store.filter (fun x => decide (x.1 < m)) := by
+  intro ts
+  induction ts with
+  | nil => intro s; exact Or.inl rfl
+  | cons t rest ih =>
+    intro s
+    unfold detectLoop
+    cases canon chain t.1 with
+    | none => exact Or.inl rfl
+    | some v =>
+      simp only
+      split
+      · split
+        · exact ih _
+        · exact ih _
+      · exact Or.inr ⟨t.1, rfl⟩
+
+theorem subInv2_cut (chain : List Nat) (maxV : Nat) (s s' : Sub) (h2 : SubInv2 chain maxV s)
+    (h : s'.store = s.store ∨ ∃ m, s'.store = s.store.filter (fun x => decide (x.1 < m))) : SubInv2 chain maxV s' := by
+  rcases h with h | ⟨m, h⟩
+  · exact ⟨by rw [h]; exact h2.nz, by rw [h]; exact h2.le, by rw [h]; exact h2.gap⟩
+  · have hm : ∀ x, x ∈ s'.store ↔ x ∈ s.store ∧ x.1 < m := by
+      intro x; rw [h, List.mem_filter]; simp
+    refine ⟨fun b hb => h2.nz b ((hm b).mp hb).1, fun b hb => h2.le b ((hm b).mp hb).1, ?_⟩
+    intro b hb hbelow n v hn hcn hv
+    obtain ⟨hb0, hbm⟩ := (hm b).mp hb
+    have := h2.gap b hb0 (fun x hx hle => hbelow x ((hm x).mpr ⟨hx, by omega⟩) hle) n v hn hcn hv
+    exact (hm _).mpr ⟨this, by simp only; omega⟩
+
+theorem subInv2_chain (chain chain' : List Nat) (maxV maxV' : Nat) (s : Sub) (h2 : SubInv2 chain maxV s)
+    (hm : maxV ≤ maxV')
+    (hcan : ∀ b ∈ s.store, Canon chain' b → Canon chain b ∧ ∀ n v, n < b.1 → canon chain' n = some v → canon chain n = some v) :
+    SubInv2 chain' maxV' s := by
+  refine ⟨h2.nz, fun b hb => Nat.le_trans (h2.le b hb) hm, ?_⟩
+  intro b hb hbelow n v hn hcn hv
+  have hbc := hcan b hb (hbelow b hb (Nat.le_refl _))
+  exact h2.gap b hb (fun x hx hle => (hcan x hx (hbelow x hx hle)).1) n v hn (hbc.2 n v hn hcn) hv
+
+theorem step_inv2 (s : Sys) (hi : SysInv s) (h2 : SysInv2 s) (op : Op) (hop : OpOK s op) : SysInv2 (step s op) := by
+  obtain ⟨ha, hb⟩ := hi
+  obtain ⟨hcl, ha2, hb2⟩ := h2
+  cases op with
+  | blk v =>
+    have hfresh : v = 0 ∨ s.maxV < v := hop
+    have key : ∀ (u : Sub), SubInv2 s.chain s.maxV u → SubInv2 (s.chain ++ [v]) (max s.maxV v) u := by
+      intro u hu
+      apply subInv2_chain _ _ _ _ _ hu (Nat.le_max_left _ _)
+      intro b hb hc
+      unfold Canon at hc
+      rcases canon_append_cases _ _ _ _ hc with ⟨hle, hc'⟩ | ⟨_, hv⟩
+      · refine ⟨hc', fun n w hn hcn => ?_⟩
+        rw [canon_append _ _ _ (by omega)] at hcn; exact hcn
+      · -- the new block cannot be one the store already holds: its version is fresh (or it has no events)
+        have h1 := hu.nz b hb
+        have h3 := hu.le b hb
+        omega
+    refine ⟨?_, key _ ha2, key _ hb2⟩
+    intro w hw
+    simp only [step] at hw ⊢
+    rcases List.mem_append.mp hw with hw | hw
+    · exact Nat.le_trans (hcl w hw) (Nat.le_max_left _ _)
+    · rw [List.mem_singleton.mp hw]; exact Nat.le_max_right _ _
+  | reorg k =>
+    have key : ∀ (u : Sub), SubInv2 s.chain s.maxV u → SubInv2 (s.chain.take (k - 1)) s.maxV u := by
+      intro u hu
+      apply subInv2_chain _ _ _ _ _ hu (Nat.le_refl _)
+      intro b hb hc
+      unfold Canon at hc
+      exact ⟨(canon_take_some _ _ _ _ hc).2, fun n w _ hcn => (canon_take_some _ _ _ _ hcn).2⟩
+    exact ⟨fun w hw => hcl w (List.mem_of_mem_take hw), key _ ha2, key _ hb2⟩
+  | fin f => exact ⟨hcl, ha2, hb2⟩
+  | stepA n => exact ⟨hcl, stepN_inv2 _ _ _ hcl n _ ha ha2, hb2⟩
+  | stepB n => exact ⟨hcl, ha2, stepN_inv2 _ _ _ hcl n _ hb hb2⟩
+  | detect =>
+    exact ⟨hcl, subInv2_cut _ _ _ _ ha2 (detectLoop_store _ _ _ _), subInv2_cut _ _ _ _ hb2 (detectLoop_store _ _ _ _)⟩
+  | detectCrash =>
+    exact ⟨hcl, subInv2_cut _ _ _ _ ha2 (Or.inl (storeCrash _ _ _ _)), subInv2_cut _ _ _ _ hb2 (Or.inl (storeCrash _ _ _ _))⟩
+  | restart => exact ⟨hcl, ha2, hb2⟩
+
+theorem run_inv2 : ∀ (ops : List Op) (s : Sys), SysInv s → SysInv2 s → OpsOK s ops → SysInv2 (run s ops) := by
+  intro ops
+  induction ops with
+  | nil => intro s _ h2 _; exact h2
+  | cons op rest ih =>
+    intro s hi h2 hok
+    unfold run
+    simp only [List.foldl_cons]
+    exact ih _ (step_inv s hi op hok.1) (step_inv2 s hi h2 op hok.1) hok.2
+
+theorem init_inv2 : SysInv2 {} := by
+  refine ⟨fun v hv => by simp at hv, ?_, ?_⟩ <;>
+    exact ⟨fun b hb => by simp at hb, fun b hb => by simp at hb, fun b hb => by simp at hb⟩
+
+theorem reachable_inv2 (s : Sys) (h : Reachable s) : SysInv2 s := by
+  obtain ⟨ops, hok, e⟩ := h
+  rw [e]; exact run_inv2 ops {} init_inv init_inv2 hok
+
 /-! ### convergence once the chain stops changing -/
 
 theorem detectLoop_no_err (chain : List Nat) (fin : Nat) : ∀ (ts : List Blk) (s : Sub),
@@ -153,96 +370,94 @@ theorem detectLoop_no_err (chain : List Nat) (fin : Nat) : ∀ (ts : List Blk) (
     · simp
 
 theorem stepOnce_canon (chain : List Nat) (fin : Nat) (s s' : Sub) (hall : ∀ b ∈ s.store, Canon chain b)
-    (h : stepOnce chain fin s = some s') : (∀ b ∈ s'.store, Canon chain b) ∧ s'.store.length = s.store.length + 1 := by
+    (h : stepOnce chain fin s = some s') :
+    (∀ b ∈ s'.store, Canon chain b) ∧ lastNum s.store < lastNum s'.store := by
   unfold stepOnce at h
-  simp only at h
-  cases hc : canon chain (lastNum s.store + 1) with
+  cases hc : nextDeliv chain (lastNum s.store + 1) with
   | none => rw [hc] at h; cases h
-  | some v =>
+  | some b =>
     rw [hc] at h
     simp only [Option.some.injEq] at h
     subst h
-    refine ⟨?_, by simp⟩
-    intro b hb
-    rcases List.mem_append.mp hb with hb | hb
-    · exact hall b hb
-    · rw [List.mem_singleton.mp hb]; exact hc
+    obtain ⟨hge, hcan, _, _⟩ := nextDeliv_some chain _ b (by omega) hc
+    refine ⟨?_, by simp only [lastNum_concat]; omega⟩
+    intro x hx
+    rcases List.mem_append.mp hx with hx | hx
+    · exact hall x hx
+    · rw [List.mem_singleton.mp hx]; exact hcan
 
-theorem stepN_converges (chain : List Nat) (fin : Nat) : ∀ (k : Nat) (s : Sub), SubInv chain fin s →
-    (∀ b ∈ s.store, Canon chain b) → s.store.length ≤ chain.length → chain.length ≤ s.store.length + k →
-    (∀ b ∈ (stepN chain fin k s).store, Canon chain b) ∧ (stepN chain fin k s).store.length = chain.length := by
+theorem stepN_converges (chain : List Nat) (fin maxV : Nat) (hcl : ∀ v ∈ chain, v ≤ maxV) : ∀ (k : Nat) (s : Sub),
+    SubInv chain fin s → SubInv2 chain maxV s →
+    (∀ b ∈ s.store, Canon chain b) → chain.length ≤ lastNum s.store + k →
+    (∀ b ∈ (stepN chain fin k s).store, Canon chain b) ∧
+    (∀ n v, canon chain n = some v → v ≠ 0 → (n, v) ∈ (stepN chain fin k s).store) := by
   intro k
   induction k with
-  | zero => intro s _ hall h1 h2; exact ⟨hall, by simp [stepN]; omega⟩
+  | zero =>
+    intro s hi h2 hall hk
+    refine ⟨hall, fun n v hc hv => ?_⟩
+    simp only [stepN]
+    exact complete_below chain fin maxV s hi h2 hall n v (by have := (canon_some_le _ _ _ hc).2; omega) hc hv
   | succ k ih =>
-    intro s hi hall h1 h2
+    intro s hi h2 hall hk
     unfold stepN
     cases h : stepOnce chain fin s with
     | none =>
-      -- nothing left to deliver: the store already reaches the tip
+      -- nothing left to deliver: no block above the store's last one has events
       simp only
-      refine ⟨hall, ?_⟩
+      refine ⟨hall, fun n v hc hv => ?_⟩
       unfold stepOnce at h
-      simp only at h
-      rw [lastNum_contig s.store hi.contiguous] at h
-      cases hc : canon chain (s.store.length + 1) with
-      | some v => rw [hc] at h; cases h
+      cases hd : nextDeliv chain (lastNum s.store + 1) with
+      | some b => rw [hd] at h; cases h
       | none =>
-        unfold canon at hc
-        simp only [Nat.add_one_ne_zero, if_false, Nat.add_sub_cancel] at hc
-        have := List.getElem?_eq_none_iff.mp hc
-        omega
+        by_cases hn : n ≤ lastNum s.store
+        · exact complete_below chain fin maxV s hi h2 hall n v hn hc hv
+        · exact absurd (nextDeliv_none chain _ (by omega) hd n v (by omega) hc) hv
     | some s' =>
       simp only
-      obtain ⟨hall', hlen⟩ := stepOnce_canon chain fin s s' hall h
-      have hle : s'.store.length ≤ chain.length := by
-        rw [hlen]
-        unfold stepOnce at h
-        simp only at h
-        rw [lastNum_contig s.store hi.contiguous] at h
-        cases hc : canon chain (s.store.length + 1) with
-        | none => rw [hc] at h; cases h
-        | some v => exact (canon_some_le _ _ _ hc).2
-      exact ih s' (stepOnce_inv chain fin s s' hi h) hall' hle (by omega)
+      obtain ⟨hall', hlt⟩ := stepOnce_canon chain fin s s' hall h
+      exact ih s' (stepOnce_inv chain fin s s' hi h) (stepOnce_inv2 chain fin maxV s s' hi h2 hcl h) hall' (by omega)
 
 /-- **convergence**: once the chain has stopped changing (and is at least as long as everything the detector tracks), one
-    detection pass followed by syncing to the tip leaves the syncer's store equal to the canonical chain: every stored
-    block is the chain's block of that number, and the store holds blocks 1 … tip without gap -/
-theorem C06_converges (chain : List Nat) (fin : Nat) (s : Sub) (hi : SubInv chain fin s)
+    detection pass followed by syncing to the tip leaves the syncer's store equal to the canonical chain's blocks with
+    events: every stored block is the chain's block of that number, every block with events that the chain has is stored,
+    in ascending order. The tracked list may be sparse (blocks without events are neither delivered nor tracked). -/
+theorem C06_converges (chain : List Nat) (fin maxV : Nat) (s : Sub) (hi : SubInv chain fin s)
+    (hi2 : SubInv2 chain maxV s) (hcl : ∀ v ∈ chain, v ≤ maxV)
     (hlen : ∀ t ∈ s.tracked, t.1 ≤ chain.length) (k : Nat) (hk : chain.length ≤ k) :
     let s' := stepN chain fin k (detectSub chain fin s).1
-    (∀ b ∈ s'.store, Canon chain b) ∧ s'.store.map (·.1) = List.range' 1 chain.length := by
+    (∀ b ∈ s'.store, Canon chain b) ∧ (∀ n v, canon chain n = some v → v ≠ 0 → (n, v) ∈ s'.store) ∧
+    s'.store.Pairwise (fun x y => x.1 < y.1) := by
   have hne : (detectSub chain fin s).2 ≠ .err := by
     unfold detectSub
     apply detectLoop_no_err
     intro t ht
-    exact ⟨(mem_num_le s.store hi.contiguous t (hi.trackedStored t ht)).1, hlen t ht⟩
+    exact ⟨hi.pos t (hi.trackedStored t ht), hlen t ht⟩
   have hp := detectSub_spec chain fin s hi
   have hclean := hp.clean hne
-  have hle : (detectSub chain fin s).1.store.length ≤ chain.length := by
-    cases hg : (detectSub chain fin s).1.store.getLast? with
-    | none =>
-      have : (detectSub chain fin s).1.store = [] := by simpa using hg
-      rw [this]; simp
-    | some b =>
-      have hb := List.mem_of_getLast? hg
-      have h1 := (canon_some_le _ _ _ (hclean b hb)).2
-      have h2 := lastNum_contig _ hp.inv.contiguous
-      unfold lastNum at h2; rw [hg] at h2; simp only at h2
-      omega
-  obtain ⟨c1, c2⟩ := stepN_converges chain fin k _ hp.inv hclean hle (by omega)
-  refine ⟨c1, ?_⟩
-  have := (stepN_inv chain fin k _ hp.inv).contiguous
-  rw [this, c2]
+  have hp2 : SubInv2 chain maxV (detectSub chain fin s).1 := subInv2_cut _ _ _ _ hi2 (detectLoop_store _ _ _ _)
+  obtain ⟨c1, c2⟩ := stepN_converges chain fin maxV hcl k _ hp.inv hp2 hclean (by omega)
+  exact ⟨c1, c2, (stepN_inv chain fin k _ hp.inv).sortedS⟩
 
-/-! ### non-vacuity: a fork two blocks deep, detected and resolved -/
+/-- the same for every state some admissible history leads to -/
+theorem C06_converges_reachable (s : Sys) (h : Reachable s) (hlen : ∀ t ∈ s.a.tracked, t.1 ≤ s.chain.length) :
+    let a' := stepN s.chain s.fin s.chain.length (detectSub s.chain s.fin s.a).1
+    (∀ b ∈ a'.store, Canon s.chain b) ∧ (∀ n v, canon s.chain n = some v → v ≠ 0 → (n, v) ∈ a'.store) :=
+  have r := C06_converges s.chain s.fin s.maxV s.a (reachable_inv s h).1 (reachable_inv2 s h).2.1 (reachable_inv2 s h).1
+    hlen s.chain.length (Nat.le_refl _)
+  ⟨r.1, r.2.1⟩
 
-example : OpsOK {} [.blk 1, .blk 1, .blk 1, .fin 1, .stepA 3, .reorg 2, .blk 2, .blk 2, .blk 1, .stepA 1, .detect, .stepA 9] := by
-  simp [OpsOK, OpOK, step, stepN, stepOnce, canon, lastNum, trackAdd, detectSub, detectLoop]
-example : (run {} [.blk 1, .blk 1, .blk 1, .fin 1, .stepA 3, .reorg 2, .blk 2, .blk 2, .blk 1, .stepA 1]).a.store
-    = [(1, 1), (2, 1), (3, 1), (4, 1)] := by decide
-example : (run {} [.blk 1, .blk 1, .blk 1, .fin 1, .stepA 3, .reorg 2, .blk 2, .blk 2, .blk 1, .stepA 1, .detect, .stepA 9]).a.store
-    = [(1, 1), (2, 2), (3, 2), (4, 1)] := by decide
+/-! ### non-vacuity: a fork two blocks deep over a sparse store, detected and resolved -/
+
+/-- blocks 1 and 3 have events, block 2 has none; the fork from block 2 on has events in blocks 2 and 4 and none in 3 -/
+def exOps : List Op := [.blk 1, .blk 0, .blk 2, .fin 1, .stepA 3, .reorg 2, .blk 3, .blk 0, .blk 4, .stepA 1, .detect, .stepA 9]
+
+example : OpsOK {} exOps := by
+  simp [exOps, OpsOK, OpOK, step]
+example : (run {} (exOps.take 10)).a.store = [(1, 1), (3, 2), (4, 4)] ∧ (run {} (exOps.take 10)).a.tracked = [(3, 2), (4, 4)] := by
+  decide
+example : (run {} (exOps.take 11)).a.store = [(1, 1)] := by decide
+example : (run {} exOps).a.store = [(1, 1), (2, 3), (4, 4)] ∧ (run {} exOps).chain = [1, 3, 0, 4] := by decide
 
 
 /-- the order of the detector's steps after a hash mismatch that the model (and `C06_stopped_during_reorg`) assumes: the
@@ -321,30 +536,6 @@ example :
     let s1 := stepN [10, 21, 31] 0 1 (detectSub [10, 21, 31] 0 s0).1
     s1.tracked = [(1, 10), (2, 21)] := by decide
 
-
-theorem le_lastNum_of_sorted : ∀ (l : List Blk), l.Pairwise (fun x y => x.1 < y.1) → ∀ x ∈ l, x.1 ≤ lastNum l := by
-  intro l
-  induction l with
-  | nil => intro _ x hx; simp at hx
-  | cons a rest ih =>
-    intro hs x hx
-    have hs' := List.pairwise_cons.mp hs
-    cases hr : rest with
-    | nil =>
-      subst hr
-      simp at hx; subst hx
-      simp [lastNum]
-    | cons b rest' =>
-      have hl : lastNum (a :: rest) = lastNum rest := by
-        unfold lastNum; rw [hr]; simp [List.getLast?_cons_cons]
-      rw [← hr, hl]
-      rcases List.mem_cons.mp hx with h | h
-      · subst h
-        have hb : b ∈ rest := by rw [hr]; simp
-        have := hs'.1 b hb
-        have := ih hs'.2 b hb
-        omega
-      · exact ih hs'.2 x h
 
 /-- **refinement**: in every state the sequential theorems speak about, the sequential detection pass is exactly
     "notify, then remove the range" with nothing in between -/
